@@ -91,8 +91,25 @@ func loadProp(path string) (*PropSpec, error) {
 	return ps, nil
 }
 
+// extraKinds (env GOVC_EXTRA_KINDS, comma separated) are obligation kinds
+// treated as claimed for every listed function: used by selftest/safetysweep.py
+// to find the safety classes (bounds, nil, conv, ...) that discharge on the
+// unchanged tree but are missing from a label list.
+var extraKinds = func() map[string]bool {
+	m := map[string]bool{}
+	for _, k := range strings.Split(os.Getenv("GOVC_EXTRA_KINDS"), ",") {
+		if k != "" {
+			m[k] = true
+		}
+	}
+	return m
+}()
+
 func labelMatch(labels []string, o *Obligation) bool {
 	if o.Kind == "cover" || o.Kind == "binding" {
+		return true
+	}
+	if extraKinds[o.Kind] {
 		return true
 	}
 	for _, l := range labels {
